@@ -22,6 +22,7 @@ const boltPkg = "go.etcd.io/bbolt"
 type boltEntry struct {
 	key []*smt.Term
 	val []*smt.Term // nil for a nested bucket
+	opaque Slice      // a value that is not plain bytes (the json model's abstract text), kept as it is
 	sub *boltNode
 }
 
@@ -63,7 +64,7 @@ type boltCursor struct {
 func (n *boltNode) clone() *boltNode {
 	c := &boltNode{entries: make([]*boltEntry, len(n.entries))}
 	for i, e := range n.entries {
-		ne := &boltEntry{key: e.key, val: e.val}
+		ne := &boltEntry{key: e.key, val: e.val, opaque: e.opaque}
 		if e.sub != nil {
 			ne.sub = e.sub.clone()
 		}
@@ -109,6 +110,18 @@ func (in *Interp) boltErr(name string) Value {
 		unsupported("bbolt error %s not found", name)
 	}
 	return in.load(token.NoPos, in.global(g))
+}
+
+// entryVal returns the stored value of a key/value entry as a byte slice value.
+func (in *Interp) entryVal(e *boltEntry) Value {
+	if e.opaque != nil {
+		return Slice{e.opaque[0]}
+	}
+	v := e.val
+	if v == nil {
+		v = []*smt.Term{}
+	}
+	return in.bytesVal(v)
 }
 
 func termsOf(v Value) []*smt.Term {
@@ -375,11 +388,7 @@ func init() {
 		if !ok || n.entries[i].sub != nil {
 			return Slice(nil)
 		}
-		v := n.entries[i].val
-		if v == nil {
-			v = []*smt.Term{}
-		}
-		return in.bytesVal(v)
+		return in.entryVal(n.entries[i])
 	})
 	B("Put", func(in *Interp, caller *frame, pos token.Pos, fn *ssa.Function, args []Value) Value {
 		tx, n := nodeOf(in, pos, args[0], false)
@@ -390,16 +399,26 @@ func init() {
 		if len(key) == 0 {
 			return in.boltErr("ErrKeyRequired")
 		}
-		val := append([]*smt.Term{}, termsOf(args[2])...)
+		var val []*smt.Term
+		var opaque Slice
+		if vs, _ := args[2].(Slice); len(vs) == 1 {
+			if _, isTok := vs[0].(JSONTok); isTok {
+				// the abstract JSON text of the json model: stored and returned as it is
+				opaque = Slice{vs[0]}
+			}
+		}
+		if opaque == nil {
+			val = append([]*smt.Term{}, termsOf(args[2])...)
+		}
 		i, ok := in.boltFind(n, key)
 		if ok {
 			if n.entries[i].sub != nil {
 				return in.boltErr("ErrIncompatibleValue")
 			}
-			n.entries[i] = &boltEntry{key: n.entries[i].key, val: val}
+			n.entries[i] = &boltEntry{key: n.entries[i].key, val: val, opaque: opaque}
 			return nilErr
 		}
-		e := &boltEntry{key: append([]*smt.Term{}, key...), val: val}
+		e := &boltEntry{key: append([]*smt.Term{}, key...), val: val, opaque: opaque}
 		n.entries = append(n.entries[:i], append([]*boltEntry{e}, n.entries[i:]...)...)
 		return nilErr
 	})
@@ -423,11 +442,7 @@ func init() {
 		for _, e := range append([]*boltEntry{}, n.entries...) {
 			var v Value = Slice(nil)
 			if e.sub == nil {
-				vv := e.val
-				if vv == nil {
-					vv = []*smt.Term{}
-				}
-				v = in.bytesVal(vv)
+				v = in.entryVal(e)
 			}
 			res := in.callValue(caller, pos, args[1], []Value{in.bytesVal(e.key), v})
 			if er, ok := res.(Iface); ok && er.T != nil {
@@ -457,11 +472,7 @@ func init() {
 		if e.sub != nil {
 			return Tuple{in.bytesVal(e.key), Slice(nil)}
 		}
-		v := e.val
-		if v == nil {
-			v = []*smt.Term{}
-		}
-		return Tuple{in.bytesVal(e.key), in.bytesVal(v)}
+		return Tuple{in.bytesVal(e.key), in.entryVal(e)}
 	}
 	C("First", func(in *Interp, caller *frame, pos token.Pos, fn *ssa.Function, args []Value) Value {
 		c := in.boltState(pos, args[0], "Cursor").(*boltCursor)
